@@ -420,6 +420,10 @@ for (keyset, lens, ri, tier) in ((1, (0, 0, 0), 1, "quick"), (3, (0, 0, 0), 2, "
 from obl.vset_common import add_iterators_obls
 OBLIGATIONS += add_iterators_obls("g")
 
+# f: an iterator pins memtable, immutable memtable and version for its lifetime (real ldb_internal_iterator / cleanup)
+from obl.dbimpl_readers import reader_obls, ITER
+OBLIGATIONS += [o for o in reader_obls("f", fns=(ITER,)) if o.tier == "quick"][:3]
+
 META = {
     "level": "model_checking",
     "level_text": "Bounded model checking (CBMC 6.11) of lcdb's own iterator code, one layer per query: table/block.c (on blocks built by the real table/block_builder.c), the ldb_iter_seek_ge/gt/le/lt helpers of table/iterator.c, table/merger.c, table/two_level_iterator.c and db_iter.c, each over the array-iterator model kit/vp_arriter.c.  After every step of a short sequence of symbolically chosen operations (first/last/seek to a symbolic target/next/prev) validity, key, value and status are compared with an independent sorted-map cursor written in the harness (harness/C07/ref.h: positions defined as min/max over the entry set), for db_iter.c over the 'newest entry with sequence <= snapshot per user key, visible iff it is a value' fold; full forward and backward scans are separate obligations.  Counterexamples are replayed natively (gcc, ASan+UBSan) on the real code.",
